@@ -38,8 +38,8 @@ static void galerkin(const std::string &nm, const Vec &xk, const Vec &x0, const 
 
 static void richardson_case(int n, int k, int prec, hx::Rng &rng) { hx::run_case("richardson/n"+std::to_string(n)+"k"+std::to_string(k)+"p"+std::to_string(prec), [&]() { Sys s=make_sys(n,rng,false,prec); sv::richardson<BE>::params prm; prm.damping=var("omega",0.8); auto r=solve<sv::richardson<BE>>(s,prm,k);
     Vec x=s.x0; for (int i=0;i<k;++i) { Vec res=sub(s.f,mv(s.Ad,x)); x=axpy(prm.damping,mv(s.Pd,res),x); }
-    if (std::get<0>(r)!=(size_t)k) { hx::count("early exact convergence paths"); return; } hx::prove_eq_vec("richardson: x_k = (x + omega P (f - A x)) repeated k times", std::get<2>(r), x); }); }
-static void cg_case(int n, int k, int prec, hx::Rng &rng) { hx::CaseOptions co; co.max_paths=8; hx::run_case("cg/n"+std::to_string(n)+"k"+std::to_string(k)+"p"+std::to_string(prec), [&]() { Sys s=make_sys(n,rng,true,prec); auto r=solve<sv::cg<BE>>(s,sv::cg<BE>::params(),k); if (std::get<0>(r)!=(size_t)k) { hx::count("early exact convergence paths"); return; }
+    hx::require("the method performs at most maxiter = k iterations", std::get<0>(r)<=(size_t)k, "iterations="+std::to_string(std::get<0>(r))+" maxiter="+std::to_string(k)); if (std::get<0>(r)!=(size_t)k) { hx::count("early exact convergence paths"); return; } hx::prove_eq_vec("richardson: x_k = (x + omega P (f - A x)) repeated k times", std::get<2>(r), x); }); }
+static void cg_case(int n, int k, int prec, hx::Rng &rng) { hx::CaseOptions co; co.max_paths=8; hx::run_case("cg/n"+std::to_string(n)+"k"+std::to_string(k)+"p"+std::to_string(prec), [&]() { Sys s=make_sys(n,rng,true,prec); auto r=solve<sv::cg<BE>>(s,sv::cg<BE>::params(),k); hx::require("the method performs at most maxiter = k iterations", std::get<0>(r)<=(size_t)k, "iterations="+std::to_string(std::get<0>(r))+" maxiter="+std::to_string(k)); if (std::get<0>(r)!=(size_t)k) { hx::count("early exact convergence paths"); return; }
     Vec r0=sub(s.f,mv(s.Ad,s.x0)), z0=mv(s.Pd,r0); std::vector<Vec> K=krylov(s.Pd,s.Ad,z0,k); Vec rk=sub(s.f,mv(s.Ad,std::get<2>(r))); galerkin("cg (A-norm error minimiser over K_k(PA, P r0))",std::get<2>(r),s.x0,K,rk,K);
     // independent dense reference: textbook preconditioned CG
     Vec x=s.x0, rr=r0, z=z0, p=z0; for (int i=0;i<k;++i) { Vec q=mv(s.Ad,p); scalar a=dot(rr,z)/dot(p,q); x=axpy(a,p,x); Vec rn=axpy(scalar(0)-a,q,rr); Vec zn=mv(s.Pd,rn); scalar b=dot(rn,zn)/dot(rr,z); p=axpy(b,p,zn); rr=rn; z=zn; } hx::prove_eq_vec("cg: iterate agrees with the dense textbook reference", std::get<2>(r), x); },co); }
@@ -47,13 +47,13 @@ static void gmres_case(const std::string &which, int n, int k, int M, bool left,
     if (which=="gmres") { sv::gmres<BE>::params p; p.M=M; p.pside=left?side::left:side::right; r=solve<sv::gmres<BE>>(s,p,k); if (k>1) r1=solve<sv::gmres<BE>>(s,p,k-1); }
     else if (which=="fgmres") { sv::fgmres<BE>::params p; p.M=M; r=solve<sv::fgmres<BE>>(s,p,k); if (k>1) r1=solve<sv::fgmres<BE>>(s,p,k-1); }
     else { sv::lgmres<BE>::params p; p.M=M; p.K=1; p.pside=left?side::left:side::right; r=solve<sv::lgmres<BE>>(s,p,k); if (k>1) r1=solve<sv::lgmres<BE>>(s,p,k-1); }
-    if (std::get<0>(r)!=(size_t)k) { hx::count("early exact convergence paths"); return; }
+    hx::require("the method performs at most maxiter = k iterations", std::get<0>(r)<=(size_t)k, "iterations="+std::to_string(std::get<0>(r))+" maxiter="+std::to_string(k)); if (std::get<0>(r)!=(size_t)k) { hx::count("early exact convergence paths"); return; }
     Vec r0=sub(s.f,mv(s.Ad,s.x0)), rk=sub(s.f,mv(s.Ad,std::get<2>(r)));
     if (k<=M) { // first cycle: residual minimiser over the Krylov space
         if (!left) { std::vector<Vec> K=krylov(s.Ad,s.Pd,r0,k), V, W; for (auto &v : K) { V.push_back(mv(s.Pd,v)); W.push_back(mv(s.Ad,mv(s.Pd,v))); } galerkin(which+" right (minimal residual over x0 + P K_k(AP, r0))",std::get<2>(r),s.x0,V,rk,W); }
         else { Vec z0=mv(s.Pd,r0); std::vector<Vec> K=krylov(s.Pd,s.Ad,z0,k), W; for (auto &v : K) W.push_back(mv(s.Pd,mv(s.Ad,v))); galerkin(which+" left (minimal preconditioned residual over x0 + K_k(PA, P r0))",std::get<2>(r),s.x0,K,mv(s.Pd,rk),W); } }
     if (k>1 && n<=2 && std::get<0>(r1)==(size_t)(k-1)) hx::prove(which+": returned residual is non-increasing in k", hx::le(std::get<1>(r)*std::get<1>(r), std::get<1>(r1)*std::get<1>(r1))); },co); }
-static void bicgstab_case(int n, int k, bool left, int prec, hx::Rng &rng) { hx::CaseOptions co; co.max_paths=8; hx::run_case(std::string("bicgstab/n")+std::to_string(n)+"k"+std::to_string(k)+(left?"l":"r")+"p"+std::to_string(prec), [&]() { Sys s=make_sys(n,rng,false,prec); sv::bicgstab<BE>::params p; p.pside=left?side::left:side::right; auto r=solve<sv::bicgstab<BE>>(s,p,k); if (std::get<0>(r)!=(size_t)k) { hx::count("early exact convergence paths"); return; }
+static void bicgstab_case(int n, int k, bool left, int prec, hx::Rng &rng) { hx::CaseOptions co; co.max_paths=8; hx::run_case(std::string("bicgstab/n")+std::to_string(n)+"k"+std::to_string(k)+(left?"l":"r")+"p"+std::to_string(prec), [&]() { Sys s=make_sys(n,rng,false,prec); sv::bicgstab<BE>::params p; p.pside=left?side::left:side::right; auto r=solve<sv::bicgstab<BE>>(s,p,k); hx::require("the method performs at most maxiter = k iterations", std::get<0>(r)<=(size_t)k, "iterations="+std::to_string(std::get<0>(r))+" maxiter="+std::to_string(k)); if (std::get<0>(r)!=(size_t)k) { hx::count("early exact convergence paths"); return; }
     // dense textbook BiCGStab on the preconditioned operator:  right: (A P) y = f, x = x0 + P y ;  left: (P A) x = P f
     Mat Op(n,Vec(n)); for (int i=0;i<n;++i) for (int j=0;j<n;++j) { scalar t=0; for (int l=0;l<n;++l) t += left ? s.Pd[i][l]*s.Ad[l][j] : s.Ad[i][l]*s.Pd[l][j]; Op[i][j]=t; }
     Vec r0=sub(s.f,mv(s.Ad,s.x0)); if (left) r0=mv(s.Pd,r0); Vec y(n,scalar(0)), rr=r0, rh=r0, pp(n,scalar(0)), v(n,scalar(0)); scalar rho=1, al=1, om=1;
